@@ -28,7 +28,7 @@ RULE = (
 )
 ASSUMPTIONS = ["all renames of a case stay inside one history (the top one, or one nested child while the command runs on the parent), default ignore patterns, file contents pairwise distinct", "one rename step per file between two generations"]
 BUDGET = {"quick": (200, 4), "thorough": (36000, 16)}
-REQUIRED = ["multi_rename", "cross_dir_move", "unrelated_new", "second_round", "renamed_back", "other_format", "-n", "new_directory", "altered_after", "nested_child", "hidden_former_name", "consecutive_dr_generations", "root_spelled_dot"]
+REQUIRED = ["multi_rename", "cross_dir_move", "unrelated_new", "second_round", "renamed_back", "other_format", "-n", "new_directory", "altered_after", "nested_child", "hidden_former_name", "consecutive_dr_generations", "root_spelled_dot", "sf_generation_before_rename", "one_empty_file"]
 
 
 @st.composite
@@ -94,6 +94,10 @@ def _scn(draw):
     return {"tree": tree, "gens": gens, "rounds": rounds, "alter": draw(st.integers(0, 9)), "child": child,
             # whether a plain create (without -dr) is run after each -dr generation (two consecutive -dr generations otherwise)
             "plain_create_between": draw(st.booleans()),
+            # a create -sf generation on one (other) file between the sealing generations and the renames
+            "sf_generation": draw(st.sampled_from([None, None, 0, 1, 2])),
+            # one file of the tree is empty (still pairwise distinct: no other file is)
+            "empty_file": draw(st.sampled_from([None, None, 0, 1, 3])),
             "spell": draw(st.sampled_from(["abs", "abs", "slash", "rel", "dot"]))}
 
 
@@ -113,7 +117,7 @@ def _distinct(tree, counter):
 
 
 def _missing_block(out):
-    lines = out.splitlines()
+    lines = out.split("\n")
     for i, l in enumerate(lines):
         m = re.match(r"^ERROR: (\d+) missing file\(s\):$", l)
         if m:
@@ -132,6 +136,15 @@ def run_case(scn, ctx):
     tree = _distinct(scn["tree"], [0])
     feats = set()
     with World("c17") as w, World("c17twin") as tw:
+        allfiles = gen.tree_files(tree)
+        if scn.get("empty_file") is not None and allfiles:
+            ef = allfiles[scn["empty_file"] % len(allfiles)]
+            node = tree
+            parts = ef.split("/")
+            for part in parts[:-1]:
+                node = node[part]
+            node[parts[-1]] = ""
+            feats.add("one_empty_file")
         for x in (w, tw):
             x.build("R", tree)
             if scn.get("child"):
@@ -140,6 +153,12 @@ def run_case(scn, ctx):
             for fm in scn["gens"]:
                 res = x.create("R", fm)
                 require(res.exc is None and res.exit_code == 0, "setup", res.brief(), res)
+        if scn.get("sf_generation") is not None and allfiles:
+            sff = allfiles[scn["sf_generation"] % len(allfiles)]
+            for x in (w, tw):
+                res = x.create("R", scn["gens"][-1], sf=["R/" + sff])
+                require(res.exc is None and res.exit_code == 0, "setup", res.brief(), res)
+            feats.add("sf_generation_before_rename")
         first_formats = set(scn["gens"][0])
         ever_recorded = {f[2:] for f in w.files}
         for ri, rnd in enumerate(scn["rounds"]):
@@ -167,8 +186,11 @@ def run_case(scn, ctx):
             for dst, src in want.items():
                 require(dst in prev, "dr-record", "renamed file %r has no record (%s)" % (dst, what), res)
                 require(prev[dst] == src, "dr-previous", "record %r has previousPath %r, expected %r (%s)" % (dst, prev[dst], src, what), res)
+            kinds = {r["path"]: r["kind"] for r in doc["records"]}
             for p, pv in prev.items():
-                if p not in want:
+                if p not in want and kinds.get(p, "file") == "file":
+                    # (only file records: a folder that the moves left empty hashes like an empty file and may be taken
+                    # for its new place - a directory record's previous path is not part of the statement)
                     require(pv is None, "dr-false-previous", "record %r (not renamed) has previousPath %r (%s)" % (p, pv, what), res)
             for cmd in ("verify", "diff", "create"):
                 if cmd == "create" and not scn.get("plain_create_between", True) and not last:
@@ -205,7 +227,7 @@ def run_case(scn, ctx):
                 require(r3.exit_code in (10, 21), "nodr-verify", "verify without rename record: %s" % r3.brief(), r3)
                 mb = _missing_block(r3.output)
                 require(mb is not None and old <= mb, "nodr-verify", "verify must list old paths %s as missing, block %s" % (sorted(old), mb), r3)
-                newl = {l[len("found new file "):] for l in r3.output.splitlines() if l.startswith("found new file ")}
+                newl = {l[len("found new file "):] for l in r3.output.split("\n") if l.startswith("found new file ")}
                 require(new <= newl, "nodr-verify", "verify must report %s as new, got %s" % (sorted(new), sorted(newl)), r3)
                 r3 = tw.diff("R")
                 require(r3.exit_code in (10, 21), "nodr-diff", "diff without rename record: %s" % r3.brief(), r3)
@@ -222,7 +244,7 @@ def run_case(scn, ctx):
             w.put("R/" + victim, w.files["R/" + victim] + b" altered")
             r4 = w.verify("R")
             require(r4.exit_code == 11, "altered-after-rename", "renamed file %r altered but %s" % (victim, r4.brief()), r4)
-            ok = any(re.match(r"^ERROR: hash mismatch\s+for " + re.escape(victim) + r" old ", l) for l in r4.output.splitlines())
+            ok = any(re.match(r"^ERROR: hash mismatch\s+for " + re.escape(victim) + r" old ", l) for l in r4.output.split("\n"))
             require(ok, "altered-after-rename", "altered renamed file %r not named: %s" % (victim, r4.output[-300:]), r4)
             feats.add("altered_after")
         for f in feats:
